@@ -27,6 +27,30 @@ package json
 //@ axiom str_def(b bytes): strLen(b) == pos0(ite(len(b) == 0, 0, ite(b[0] == '"', 1, ite(b[0] != '\\', plus(1, strLen(b[1:])), ite(len(b) == 1, 0, ite(isEscB(b[1]), plus(2, strLen(b[2:])), ite(b[1] == 'u', plus(2, hexLen(b[2:], 0)), 0)))))))
 //@ axiom hex_def(b bytes, j int): hexLen(b, j) == pos0(ite(j >= 4, strLen(b), ite(len(b) == 0, 0, ite(isHexB(b[0]), plus(1, hexLen(b[1:], j + 1)), 0))))
 
+// numLen(b): the number token at the start of b. The property leaves number spelling to the
+// parser ("liberal number spelling"), so numLen is consumeNumber's own (deterministic) answer; what is
+// proved about it: every consumed byte is from the number alphabet.
+//@ ghostfun numLen(bytes) int
+//@ spec isNumB(c) = ('0' <= c && c <= '9') || c == '-' || c == '+' || c == '.' || c == 'e' || c == 'E'
+//@ spec pfx(b, c) = len(b) >= len(c) && (forall k :: 0 <= k && k < len(c) ==> b[k] == c[k])
+// valLen(b, lvl, cap): one JSON value with surrounding white space at nesting level lvl, refused
+// beyond the cap. arrLen/objLen: the rest of an array/object after its opening bracket (items
+// separated by single commas, one trailing comma tolerated, members "key" : value).
+//@ ghostfun valLen(bytes, int, int) int
+//@ ghostfun arrLen(bytes, int, int) int
+//@ ghostfun objLen(bytes, int, int) int
+//@ spec tokLen(s, lvl, cap) = ite(s[0] == '"', plus(1, strLen(s[1:])), ite(s[0] == '[', plus(1, arrLen(s[1:], lvl + 1, cap)), ite(s[0] == '{', plus(1, objLen(s[1:], lvl + 1, cap)), ite(s[0] == 't', ite(hasPrefix(s, "true"), 4, 0), ite(s[0] == 'f', ite(hasPrefix(s, "false"), 5, 0), ite(s[0] == 'n', ite(hasPrefix(s, "null"), 4, 0), numLen(s)))))))
+//@ spec valTail(s, t) = ite(t > 0, t + wsLen(s[t:]), 0)
+//@ axiom val_def(b bytes, lvl int, cap int): valLen(b, lvl, cap) == pos0(ite(lvl > cap || wsLen(b) >= len(b), 0, plus(wsLen(b), valTail(b[wsLen(b):], tokLen(b[wsLen(b):], lvl, cap)))))
+//@ spec arrSep(b, k, lvl, cap) = ite(k >= len(b), 0, ite(b[k] == ',', plus(k + 1, arrLen(b[k+1:], lvl, cap)), ite(b[k] == ']', k + 1, 0)))
+//@ spec arrItem(b, w, lvl, cap) = ite(valLen(b[w:], lvl, cap) > 0, arrSep(b, w + valLen(b[w:], lvl, cap), lvl, cap), 0)
+//@ axiom arr_def(b bytes, lvl int, cap int): arrLen(b, lvl, cap) == pos0(ite(wsLen(b) >= len(b), 0, ite(b[wsLen(b)] == ']', wsLen(b) + 1, arrItem(b, wsLen(b), lvl, cap))))
+//@ spec objSep(b, k, lvl, cap) = ite(k >= len(b), 0, ite(b[k] == ',', plus(k + 1, objLen(b[k+1:], lvl, cap)), ite(b[k] == '}', k + 1, 0)))
+//@ spec objVal(b, v, lvl, cap) = ite(v < len(b) && valLen(b[v:], lvl, cap) > 0, objSep(b, v + valLen(b[v:], lvl, cap), lvl, cap), 0)
+//@ spec objColon(b, c, lvl, cap) = ite(c >= len(b) || b[c] != ':', 0, objVal(b, c + 1 + wsLen(b[c+1:]), lvl, cap))
+//@ spec objKey(b, k, lvl, cap) = ite(strLen(b[k:]) > 0, objColon(b, k + strLen(b[k:]) + wsLen(b[k + strLen(b[k:]):]), lvl, cap), 0)
+//@ axiom obj_def(b bytes, lvl int, cap int): objLen(b, lvl, cap) == pos0(ite(wsLen(b) >= len(b), 0, ite(b[wsLen(b)] == '}', wsLen(b) + 1, ite(b[wsLen(b)] != '"', 0, objKey(b, wsLen(b) + 1, lvl, cap)))))
+
 // jdepth: ghost, the number of containers currently open. The level argument equals the
 // nesting depth, so the recursion cap refuses exactly the documents nested deeper than the cap.
 //@ ghostvar jdepth int
@@ -59,9 +83,11 @@ package json
 //@   requires ibOK(p, b)
 //@   assigns p.ib
 //@   ensures result == 0 || result == len(cnst)
+//@   ensures [C09_G_const] len(cnst) > 0 ==> result == ite(pfx(b, cnst), len(cnst), 0)
 //@   ensures [C08C09_J2] old(p.ib) <= p.ib && p.ib <= old(p.ib) + len(b)
 //@   ensures [C08_J1] result > 0 ==> p.ib == old(p.ib) + result && result <= len(b)
 //@   loop 1 invariant p.ib == old(p.ib) + rangeindex + 1 && rangeindex + 1 <= len(b) && lb == len(b)
+//@   loop 1 invariant [C09_G_const_inv] forall k :: 0 <= k && k <= rangeindex ==> b[k] == cnst[k]
 
 //@ func json.(*parserState).consumeString
 //@   requires ibOK(p, b)
@@ -83,13 +109,18 @@ package json
 //@   requires ibOK(p, b)
 //@   assigns p.ib
 //@   ensures 0 <= n && n <= len(b)
+//@   defines n == numLen(b)
+//@   ensures [C09_G_num] forall k :: 0 <= k && k < n ==> isNumB(b[k])
 //@   ensures [C08C09_J2] old(p.ib) <= p.ib && p.ib <= old(p.ib) + len(b)
 //@   ensures [C08_J1] n > 0 ==> p.ib == old(p.ib) + n
 //@   loop 1 invariant isSuffixView(b, old(b)) && i == len(old(b)) - len(b) && 0 <= i && p.ib == old(p.ib) + i
+//@   loop 1 invariant [C09_G_num_inv] forall k :: 0 <= k && k < i ==> isNumB(old(b)[k])
 //@   loop 1 decreases len(b)
 //@   loop 2 invariant isSuffixView(b, old(b)) && i == len(old(b)) - len(b) && 0 <= i && p.ib == old(p.ib) + i
+//@   loop 2 invariant [C09_G_num_inv] forall k :: 0 <= k && k < i ==> isNumB(old(b)[k])
 //@   loop 2 decreases len(b)
 //@   loop 3 invariant isSuffixView(b, old(b)) && i == len(old(b)) - len(b) && 0 <= i && p.ib == old(p.ib) + i
+//@   loop 3 invariant [C09_G_num_inv] forall k :: 0 <= k && k < i ==> isNumB(old(b)[k])
 //@   loop 3 decreases len(b)
 
 //@ func json.(*parserState).consumeArray
@@ -106,11 +137,14 @@ package json
 //@   ensures [C08C09_J2] old(p.ib) <= p.ib && p.ib <= old(p.ib) + len(b)
 //@   ensures [C08_J1] n > 0 ==> p.ib == old(p.ib) + n
 //@   ensures [C09_closed] n > 0 ==> b[n-1] == ']'
+//@   ensures [C09_G_arr] n == arrLen(b, lvl, p.maxRecursion)
+//@   uses arr_def, ws_def
 //@   ensures [C10_stack_grows] len(p.currPath) >= old(len(p.currPath))
 //@   ensures [C10_stack_restored] n > 0 ==> p.currPath == old(p.currPath)
 //@   decreases p.maxRecursion + 9 - lvl, 1
 //@   loop 1 invariant 0 <= n && n <= len(b) && p.ib == old(p.ib) + n
 //@   loop 1 invariant [C10_stack] len(p.currPath) == old(len(p.currPath)) + 1 && p.currPath[:len(p.currPath)-1] == old(p.currPath)
+//@   loop 1 invariant [C09_G_arr_inv] arrLen(b, lvl, p.maxRecursion) == plus(n, arrLen(b[n:], lvl, p.maxRecursion))
 //@   loop 1 invariant [C10_mono_inv] old(p.querySatisfied) ==> p.querySatisfied
 //@   loop 1 decreases len(b) - n
 
@@ -136,11 +170,14 @@ package json
 //@   ensures [C08C09_J2] old(p.ib) <= p.ib && p.ib <= old(p.ib) + len(b)
 //@   ensures [C08_J1] n > 0 ==> p.ib == old(p.ib) + n
 //@   ensures [C09_closed] n > 0 ==> b[n-1] == '}'
+//@   ensures [C09_G_obj] n == objLen(b, lvl, p.maxRecursion)
+//@   uses obj_def, ws_def
 //@   ensures [C10_stack_grows] len(p.currPath) >= old(len(p.currPath))
 //@   ensures [C10_stack_restored] n > 0 ==> p.currPath == old(p.currPath)
 //@   decreases p.maxRecursion + 9 - lvl, 1
 //@   loop 1 invariant 0 <= n && n <= len(b) && p.ib == old(p.ib) + n
 //@   loop 1 invariant [C10_stack] p.currPath == old(p.currPath)
+//@   loop 1 invariant [C09_G_obj_inv] objLen(b, lvl, p.maxRecursion) == plus(n, objLen(b[n:], lvl, p.maxRecursion))
 //@   loop 1 invariant [C10_mono_inv] old(p.querySatisfied) ==> p.querySatisfied
 //@   loop 1 decreases len(b) - n
 //@   loop 2 invariant [C10_due_inv2] (c10_due ==> p.querySatisfied) && (old(p.querySatisfied) ==> p.querySatisfied)
@@ -158,6 +195,8 @@ package json
 //@   assigns p.ib, p.currPath, p.firstToken, p.querySatisfied, ghost(jdepth)
 //@   ensures 0 <= n && n <= len(b)
 //@   ensures ok ==> n > 0
+//@   ensures [C09_G_val] ok == (valLen(b, lvl, p.maxRecursion) > 0) && (ok ==> n == valLen(b, lvl, p.maxRecursion))
+//@   uses val_def, ws_def
 //@   ensures [C08C09_J2] old(p.ib) <= p.ib && p.ib <= old(p.ib) + len(b)
 //@   ensures [C08_J1] ok ==> p.ib == old(p.ib) + n
 //@   ensures [C10_stack_grows] len(p.currPath) >= old(len(p.currPath))
